@@ -31,7 +31,7 @@ META = {
              "process), priorized fit (stage 1-3, regroup on/off, shuffled input) and its repetition, and one run with a fault "
              "injected at the k-th fitter call (NaN model, success=False, errorbars=False, singular matrix in the covariance step).  Non-trivial = at least one island "
              "was fitted and at least two operations ran; distinct = new (layout, options, history shape, catalogue size "
-             "bucket) tuple."),
+             "bucket) tuple.  'evaluations' counts finder operations executed (several per case); distinctness is counted per case."),
     "assumptions": [
         "partial: the history, re-run, fresh-process and fault-isolation clauses are decided by the simulated histories; the row invariants are evaluated on the catalogues those histories produce, i.e. on sampled inputs",
         "noise/background are forced (rms=noise level, bkg=0) so that catalogues do not depend on BANE",
